@@ -2,7 +2,7 @@
    (GaussHermiteQuadrature1D.forward, lines 68-87), polynomials as coefficient lists, the
    normal moment functional, and the documented formulas of the non-Gaussian likelihoods as
    [expr] terms.  Definitions only (generic over the scalar field where numeric). *)
-From Coq Require Import Arith List ZArith QArith Qcanon Reals.
+From Coq Require Import Arith List ZArith QArith Qcanon Reals Ascii String DecimalString.
 From GPV Require Import Base.LinAlg Base.Exec Base.Expr.
 Import ListNotations.
 
@@ -183,13 +183,10 @@ Definition softmax_probs (W : option (list (list Qc))) (f : list Qc) : list expr
 
 (* ---- executable wrappers: rationals in, list Z out *)
 
-(* Coq's printer is slow on long lists: a result [z1; ..; zk] is packed into the three numbers
-   [L; k; sum_i field(z_i) 2^(L (k-i))] with field(z) = 2|z| + [z < 0] < 2^L; the harness unpacks. *)
-Definition zfield (z : Z) : Z := if (z <? 0)%Z then (2 * (- z) + 1)%Z else (2 * z)%Z.
-Definition pack (l : list Z) : list Z :=
-  let fs := map zfield l in
-  let L := fold_right (fun f acc => Z.max (Z.log2 f + 1) acc) 1%Z fs in
-  [L; Z.of_nat (length l); fold_left (fun acc f => (Z.shiftl acc L + f)%Z) fs 0%Z].
+(* Coq prints a large Z through a Gallina-level decimal conversion that is far slower than
+   vm_compute; results made of large numbers are therefore returned as decimal strings *)
+Definition zstr (z : Z) : string := NilZero.string_of_int (Z.to_int z).
+Definition strs (l : list Z) : list string := map zstr l.
 
 (* exact node sum of the rule for a polynomial integrand; the harness divides by sqrt(pi) *)
 Definition run_rule_poly (c : list Qc * list Qc * Qc * Qc * list Qc) : list Z :=
@@ -199,7 +196,9 @@ Definition run_rule_poly (c : list Qc * list Qc * Qc * Qc * list Qc) : list Z :=
 (* E_{N(m, sd^2)} p by the moment functional (binomial form) and by the recurrence in v = sd^2 *)
 Definition run_expect (c : Qc * Qc * list Qc) : list Z :=
   let '(m, sd, p) := c in
-  ser_qc (@normal_expect_sd QcF m sd p) ++ ser_qc (@normal_expect_var_fast QcF m (sd * sd)%Qc p).
+  let a := @normal_expect_sd QcF m sd p in
+  let b := @normal_expect_var_fast QcF m (sd * sd)%Qc p in
+  (if Qc_eqb a b then 1%Z else 0%Z) :: ser_qc a.
 Definition run_expect_var (c : Qc * Qc * list Qc) : list Z :=
   let '(m, v, p) := c in ser_qc (@normal_expect_var_fast QcF m v p).
 
